@@ -23,6 +23,7 @@ RULE = (
     "per-name size map x initialize_vars; plus invalid size maps that StringConfigs must refuse. Non-trivial: >= 1 variable in a "
     "non-top-level position class and a non-default string size; distinct by sha1 of (program, options)"
 )
+RULE += ' The slot table covers every operand position of every statement and function of the grammar (110 numeric, 34 string templates); now and then 10-14 declared names and a statement with 10-14 string temporaries; varied surroundings (no standard prefix, label filter, no suffix).'
 ASSUMPTIONS = [
     "BASIC09: BASE 0 keeps the element count, so DIM x(n) holds n elements (source bound + 1 are needed); identifiers are case-insensitive",
     "the identifier of a source variable is learnt by converting a one-line probe program and reading the assignment target",
